@@ -161,7 +161,7 @@ class Equal(Logic):
         self.b = b
         self.r = r
 
-        w = a.getWidth()
+        w = max(a.getWidth(), b.getWidth())
         
         xor = self.wire('xor', w)
         
